@@ -99,5 +99,8 @@ def run(tier, replay):
             return replay_pure(replay)
         checklib.tool_error("unknown replay stage %r" % stage)
     reports = run_pure(tier)
-    # stage (b) black box: reports += run_blackbox(tier)
+    # stage (b) black box: the same kind of texts through POST /write and GET /query of a real ts-server
+    if os.environ.get("VERIF_C06_SKIP_BLACKBOX", "") == "":
+        import c06_blackbox
+        reports += c06_blackbox.run_blackbox(tier)
     return checklib.finish(CID, tier, LEVEL, RULE, reports, t0, ASSUMPTIONS)
